@@ -17,7 +17,7 @@ class Unsupported(Undecidable):
 
 SAFE_CALLS = {'int': int, 'str': str, 'len': len, 'sum': sum, 'divmod': divmod, 'tuple': tuple, 'reversed': reversed,
               'abs': abs, 'min': min, 'max': max, 'range': range, 'enumerate': enumerate, 'list': list, 'bool': bool,
-              'sorted': sorted, 'zip': zip, 'dict': dict, 'set': set, 'frozenset': frozenset, 'pow': pow}
+              'sorted': sorted, 'zip': zip, 'dict': dict, 'set': set, 'frozenset': frozenset, 'pow': pow, 'all': all, 'any': any}
 SAFE_METHODS = {'index', 'upper', 'lower', 'zfill', 'join', 'find', 'get', 'split', 'strip', 'rstrip', 'lstrip', 'partition', 'rsplit', 'replace', 'items', 'keys', 'values'}
 
 
@@ -275,6 +275,13 @@ def compiled_patterns(tree):
     return out
 
 
+class Raised(Exception):
+    """The evaluated body executes `raise <name>(...)`."""
+    def __init__(self, name):
+        Exception.__init__(self, name)
+        self.name = name
+
+
 class _Return(Exception):
     def __init__(self, value):
         self.value = value
@@ -324,6 +331,9 @@ def run(stmts, env, hooks=None, fuel=20000):
                 raise _Return(ev(st.value, env, hooks) if st.value is not None else None)
             elif isinstance(st, ast.Pass):
                 continue
+            elif isinstance(st, ast.Raise) and st.exc is not None and st.cause is None:
+                e = st.exc.func if isinstance(st.exc, ast.Call) else st.exc
+                raise Raised(ast.unparse(e))
             else:
                 raise Unsupported('statement %s' % type(st).__name__)
     try:
